@@ -16,6 +16,7 @@
 //!           ct:<mime>:<display>   content_type(mime.parse())   display = `Mime::to_string()` (opaque, from `gen`)
 //!           bs:<utf8> bb:<bytes> bj:<canonical json text> bf:<k>=<v>,…   body_string / body_bytes / body_json / body_form
 //!           gs:<utf8> gb:<bytes> gj:<json>                               body(String) / body(Vec<u8>) / body(serde_json::Value)
+//!           gr:<bytes>                                                   body(Body::from_reader(cursor, None)) (length unknown)
 //!           q:<k>=<v>,…:<url after the call>   query(&map)   (result computed by `gen` with serde_qs + url directly)
 //! C14 out : `req <number of effects> <METHOD> <url> <headers> <body>` | `panic <class>`
 //!           headers: `_` or `,`-separated `<name>=<value>` sorted by name, values of one name in their order
@@ -60,6 +61,8 @@ pub enum BCall {
     GenString(String),
     GenBytes(Vec<u8>),
     GenJson(serde_json::Value),
+    /// `body(Body::from_reader(cursor, None))`: a body whose length is not known in advance
+    GenReader(Vec<u8>),
     Query(Pairs),
 }
 
@@ -146,6 +149,7 @@ macro_rules! apply_calls {
                 BCall::GenString(s) => b.body(s.clone()),
                 BCall::GenBytes(x) => b.body(x.clone()),
                 BCall::GenJson(j) => b.body(j.clone()),
+                BCall::GenReader(x) => b.body(crux_http::http::Body::from_reader(futures::io::Cursor::new(x.clone()), None)),
                 BCall::Query(p) => b.query(p).expect("query"),
             };
         }
@@ -345,6 +349,7 @@ fn parse_call(s: &str) -> Option<BCall> {
         ["gs", b] => BCall::GenString(string(b)?),
         ["gb", b] => BCall::GenBytes(from_hex(b)?),
         ["gj", b] => BCall::GenJson(serde_json::from_slice(&from_hex(b)?).ok()?),
+        ["gr", b] => BCall::GenReader(from_hex(b)?),
         ["q", ps, _url] => BCall::Query(parse_pairs(ps)?),
         _ => return None,
     })
@@ -789,9 +794,10 @@ fn rand_call(r: &mut Rng) -> String {
         11 | 12 => format!("bb:{}", to_hex(&rand_bytes(r))),
         13 | 14 => format!("bj:{}", to_hex(&serde_json::to_vec(&rand_json(r, 0)).unwrap())),
         15 => format!("bf:{}", rand_pairs(r)),
-        16 => match r.below(3) {
+        16 => match r.below(4) {
             0 => format!("gs:{}", hx(&rand_string_body(r))),
             1 => format!("gb:{}", to_hex(&rand_bytes(r))),
+            2 => format!("gr:{}", to_hex(&rand_bytes(r))),
             _ => format!("gj:{}", to_hex(&serde_json::to_vec(&rand_json(r, 0)).unwrap())),
         },
         _ => format!("q:{}", rand_pairs(r)),
